@@ -88,8 +88,8 @@ Proof.
   - cbn [q_loop] in H. apply bind_ok in H. destruct H as (stp & P & H). apply bind_ok in H. destruct H as (c & C & H).
     cbv zeta in H. destruct (child_shape _ _ _ _ C) as [F1 LC].
     pose proof (fr_trans _ _ _ (fr_trans _ _ _ (fr_push _ _ _ P) F1) (fr_pop (ist c))) as F2.
-    pose proof (fr_check_up (pop (ist c))) as F3. destruct (check_up (pop (ist c))) as [up st''].
-    cbn [snd] in F3. pose proof (fr_trans _ _ _ F2 F3) as F.
+    pose proof (fr_check_up (poll (pop (ist c)))) as F3. destruct (check_up (poll (pop (ist c)))) as [up st''].
+    cbn [snd] in F3. pose proof (fr_trans _ _ _ (fr_trans _ _ _ F2 (fr_poll (pop (ist c)))) F3) as F.
     destruct up; [inversion H; cbn [ist iv iline ir]; split; [exact F | intros [X _]; auto]|].
     destruct (- iv c >=? beta) eqn:E1; [inversion H; cbn [ist iv iline ir]; split; [exact F | intros [_ X]; lia]|].
     destruct (- iv c >? alpha) eqn:E2.
@@ -357,10 +357,10 @@ Proof.
   cbn [q_loop] in H. apply step_nc in H; [ | exact T | exact F | apply OK; left; reflexivity].
   destruct H as [H | (stp & c & p' & P & T' & O' & C & K & FR & H)]; [exact H|]. cbv zeta in H.
   destruct (child_shape _ _ _ _ C) as [_ LC].
-  pose proof (keeps_check_up (pop (ist c))) as K2. pose proof (fr_check_up (pop (ist c))) as F2.
-  destruct (check_up (pop (ist c))) as [up st'']. cbn [snd] in K2, F2.
-  pose proof (keeps_top' _ _ _ (keeps_trans _ _ _ K K2) T) as T3.
-  pose proof (fr_FI _ _ (fr_trans _ _ _ FR F2) F) as F3.
+  pose proof (keeps_check_up (poll (pop (ist c)))) as K2. pose proof (fr_check_up (poll (pop (ist c)))) as F2.
+  destruct (check_up (poll (pop (ist c)))) as [up st'']. cbn [snd] in K2, F2.
+  pose proof (keeps_top' _ _ _ (keeps_trans _ _ _ (keeps_trans _ _ _ K (keeps_poll (pop (ist c)))) K2) T) as T3.
+  pose proof (fr_FI _ _ (fr_trans _ _ _ (fr_trans _ _ _ FR (fr_poll (pop (ist c)))) F2) F) as F3.
   destruct up; [discriminate H|]. destruct (- iv c >=? beta) eqn:E1; [discriminate H|].
   destruct (- iv c >? alpha) eqn:E2.
   - destruct (extend_ok (rm m) (iline c) (LC ltac:(lia))) as (cl & EX). rewrite EX in H. cbn [bind] in H.
